@@ -140,42 +140,42 @@ auto make_t36(Limits lim, LexerUsage lu = LexerUsage{})
         terms(ta, tb, tc, td, te, tf),
         nterms(n0, n1, n2, n3, n4, n5, park),
         rules(
-            n0(ta, ta) >= F<0>{},
+            park(ta, ta) >= F<0>{},
             n0(ta) >= F<1>{},
-            n0(ta, ta, ta) >= F<2>{},
-            n0() >= F<3>{},
-            n0(n0),
-            n0(ta, ta) >>= FC<5>{},
-            n0(ta, error) >= F<6>{},
-            n0(ta, ta, ta) >= F<7>{},
-            n0(ta) >= F<8>{},
-            n0(ta, ta) >= F<9>{},
-            n0() >= F<10>{},
-            n0(ta, error, ta) >= F<11>{},
-            n0(ta, ta, ta, ta) >= F<12>{},
-            n0(ta) >>= FC<13>{},
-            n0(ta, ta) >= F<14>{},
-            n0(error) >= F<15>{},
-            n0(ta, ta, ta) >>= FC<16>{},
-            n0(n0),
-            n0(ta, ta) >= F<18>{},
-            n0() >>= FC<19>{},
-            n0(error, ta) >= F<20>{},
-            n0(ta, ta, ta) >= F<21>{},
-            n0(ta) >= F<22>{},
-            n0(ta, ta, ta, ta) >= F<23>{},
-            n0(ta, ta) >= F<24>{},
-            n0(error, ta, ta) >= F<25>{},
-            n0(ta) >= F<26>{},
-            n0() >= F<27>{},
-            n0(ta, ta, error) >= F<28>{},
-            n0(ta, ta, ta) >= F<29>{},
-            n0(ta, ta) >>= FC<30>{},
-            n0(ta) >= F<31>{},
-            n0(ta, ta, ta, ta) >>= FC<32>{},
-            n0(ta, ta) >= F<33>{},
-            n0(ta) >= F<34>{},
-            n0(ta, ta, ta) >= F<35>{}
+            park(ta, ta, ta) >= F<2>{},
+            park() >= F<3>{},
+            park(n0),
+            park(ta, ta) >>= FC<5>{},
+            park(ta, error) >= F<6>{},
+            park(ta, ta, ta) >= F<7>{},
+            park(ta) >= F<8>{},
+            park(ta, ta) >= F<9>{},
+            park() >= F<10>{},
+            park(ta, error, ta) >= F<11>{},
+            park(ta, ta, ta, ta) >= F<12>{},
+            park(ta) >>= FC<13>{},
+            park(ta, ta) >= F<14>{},
+            park(error) >= F<15>{},
+            park(ta, ta, ta) >>= FC<16>{},
+            park(n0),
+            park(ta, ta) >= F<18>{},
+            park() >>= FC<19>{},
+            park(error, ta) >= F<20>{},
+            park(ta, ta, ta) >= F<21>{},
+            park(ta) >= F<22>{},
+            park(ta, ta, ta, ta) >= F<23>{},
+            park(ta, ta) >= F<24>{},
+            park(error, ta, ta) >= F<25>{},
+            park(ta) >= F<26>{},
+            park() >= F<27>{},
+            park(ta, ta, error) >= F<28>{},
+            park(ta, ta, ta) >= F<29>{},
+            park(ta, ta) >>= FC<30>{},
+            park(ta) >= F<31>{},
+            park(ta, ta, ta, ta) >>= FC<32>{},
+            park(ta, ta) >= F<33>{},
+            park(ta) >= F<34>{},
+            park(ta, ta, ta) >= F<35>{}
         ),
         lu,
         lim
@@ -220,28 +220,28 @@ auto make_t20(Limits lim)
         terms(ta, tb, tc, td, te, tf),
         nterms(n0, n1, n2, n3, n4, n5, park),
         rules(
-            n0(ta, ta) >= F<0>{},
+            park(ta, ta) >= F<0>{},
             n0(ta) >= F<1>{},
-            n0() >= F<2>{},
-            n0(ta, ta) >= F<3>{},
-            n0(n0),
-            n0(ta, error) >= F<5>{},
-            n0(ta, ta) >>= FC<6>{},
-            n0(ta) >= F<7>{},
-            n0(ta, ta) >= F<8>{},
-            n0() >= F<9>{},
-            n0(error) >= F<10>{},
-            n0(ta) >>= FC<11>{},
-            n0(ta, ta) >= F<12>{},
-            n0(error, ta) >= F<13>{},
-            n0(ta) >= F<14>{},
-            n0(ta, ta) >= F<15>{},
-            n0() >>= FC<16>{},
-            n0(ta, ta) >= F<17>{},
-            n0(ta) >= F<18>{},
-            n0(ta, ta) >= F<19>{},
-            n0(n0),
-            n0(ta, ta) >= F<21>{}
+            park() >= F<2>{},
+            park(ta, ta) >= F<3>{},
+            park(n0),
+            park(ta, error) >= F<5>{},
+            park(ta, ta) >>= FC<6>{},
+            park(ta) >= F<7>{},
+            park(ta, ta) >= F<8>{},
+            park() >= F<9>{},
+            park(error) >= F<10>{},
+            park(ta) >>= FC<11>{},
+            park(ta, ta) >= F<12>{},
+            park(error, ta) >= F<13>{},
+            park(ta) >= F<14>{},
+            park(ta, ta) >= F<15>{},
+            park() >>= FC<16>{},
+            park(ta, ta) >= F<17>{},
+            park(ta) >= F<18>{},
+            park(ta, ta) >= F<19>{},
+            park(n0),
+            park(ta, ta) >= F<21>{}
         ),
         use_generated_lexer{},
         lim
